@@ -301,10 +301,7 @@ func (c *cmp) expr(name string, a, b syntax.Expr) error {
 		return c.expr("Value", a.Value, b.Value)
 	case *syntax.TupleExpr:
 		b := b.(*syntax.TupleExpr)
-		if a.Lparen.IsValid() != b.Lparen.IsValid() {
-			return c.errf("tuple parentheses: want %v, got %v", a.Lparen.IsValid(), b.Lparen.IsValid())
-		}
-		if a.Lparen.IsValid() {
+		if len(a.List) == 0 && len(b.List) == 0 {
 			if err := c.pos("Lparen", a.Lparen, b.Lparen); err != nil {
 				return err
 			}
